@@ -58,7 +58,7 @@ def random_runs(schema, rnd, tier, refs=False):
 
 
 def plans():
-    obs = metagen.battery(['sel', 'sel', 'sel', 'chk_id'], per_step=2, dup_eq=True)
+    obs = metagen.battery(['sel', 'sel', 'sel', 'chk_id'], per_step=2, dup_eq=True, sticky_ids=2)
     obs_nav = metagen.battery(['nav', 'nav', 'sel', 'card'], per_step=2, dup_eq=True)
     return [
         {'name': 'spelling', 'schema': 'spelling', 'spec': 'SpecVal', 'alpha': {'new', 'set', 'del', 'link', 'delete'},
